@@ -22,6 +22,7 @@ mod c16;
 mod c06;
 mod c07;
 mod c13;
+mod c20;
 
 pub struct Out {
     pub cases: BufWriter<File>,
@@ -98,6 +99,7 @@ fn main() {
                 "C06" => c06::gen(seed, n, &mut out),
                 "C07" => c07::gen(seed, n, &mut out),
                 "C13" => c13::gen(seed, n, &mut out),
+                "C20" => c20::gen(seed, n, &mut out),
                 "C03" => c03::gen(seed, n, &mut out),
                 "C04" => c04::gen(seed, n, &mut out),
                 "C05csr" => c05::gen_csr(seed, n, &mut out),
